@@ -157,7 +157,7 @@ func zzH10_binaryDivZero() {
 //
 //verif:unwind 40
 //verif:config generic posix64 posix64-nommap
-//verif:configq generic posix64
+//verif:configq generic
 func zzH10_conv() {
 	B := zzParam("conv_bits", 40, 70)
 	x, xv := zzSymInt("x", B)
@@ -240,7 +240,7 @@ func zzH10_asint() {
 //
 //verif:unwind 40
 //verif:config generic posix64 posix64-nommap
-//verif:configq generic posix64
+//verif:configq generic
 func zzH10_bitwise() {
 	B := zzParam("bitwise_bits", 36, 66)
 	x, xv := zzSymInt("x", B)
